@@ -229,6 +229,19 @@ def replay_main():
     sys.exit(1 if v else 0)
 
 
+_OBS, _ENV = [], None
+
+
+def _decide_index(i):
+    prog, src, tier = _ENV
+    try:
+        r = decide(_OBS[i], prog, src, tier)
+    except Exception as e:  # a crashing worker must not look like a pass
+        r = {"name": _OBS[i]["name"], "family": _OBS[i].get("family", ""), "engine": "mirsym(z3)", "funcs": _OBS[i].get("funcs", []), "bound": _OBS[i].get("bound", ""),
+             "query": _OBS[i].get("doc", ""), "status": "inconclusive", "solver_s": 0.0, "paths": 0, "queries": 0, "reason": "executor error in worker: " + repr(e)[:300]}
+    return json.dumps(r, default=str)
+
+
 def main():
     if sys.argv[1] == "--replay":
         return replay_main()
@@ -239,10 +252,22 @@ def main():
     mod = importlib.import_module("ob_" + pid)
     obs = mod.obligations(prog, src, tier, seed)
     results = []
-    for ob in obs:
-        r = decide(ob, prog, src, tier)
-        print(f"[mirsym] {r['name']}: {r['status']} paths={r['paths']} queries={r['queries']} {r.get('reason', r.get('failed', ''))}", flush=True)
-        results.append(r)
+    jobs = int(os.environ.get("VERIF_JOBS", "0") or 0) or min(12, os.cpu_count() or 1)
+    if jobs > 1 and len(obs) > 1:
+        # obligations are independent: decide them in forked workers (closures are inherited, results come back as JSON)
+        import multiprocessing as mp
+        global _OBS, _ENV
+        _OBS, _ENV = obs, (prog, src, tier)
+        with mp.get_context("fork").Pool(min(jobs, len(obs))) as pool:
+            for txt in pool.imap(_decide_index, range(len(obs))):
+                r = json.loads(txt)
+                print(f"[mirsym] {r['name']}: {r['status']} paths={r['paths']} queries={r['queries']} {r.get('reason', r.get('failed', ''))}", flush=True)
+                results.append(r)
+    else:
+        for ob in obs:
+            r = decide(ob, prog, src, tier)
+            print(f"[mirsym] {r['name']}: {r['status']} paths={r['paths']} queries={r['queries']} {r.get('reason', r.get('failed', ''))}", flush=True)
+            results.append(r)
     used = sorted(models.DOC)
     json.dump({"results": results, "model_table": {k: models.DOC[k] for k in used}}, open(out, "w"), indent=1, default=str)
 
